@@ -35,6 +35,10 @@ Definition visible (c : cfg) (e : expectation) (m : msg) : bool :=
              end
   end.
 
+(* the checker, if the expectation has one, is shown the message with the partitioner's choice in place *)
+Definition check_events (e : expectation) (m : msg) : list event :=
+  match m_pres m with POk p => checked (e_chk e) m p | PErr _ => [] end.
+
 Fixpoint spec_async (c : cfg) (es : list expectation) (ms : list msg) (off : Z) : list event :=
   match ms with
   | [] => match es with [] => [] | _ => [EvReport (RepLeftOver (Z.of_nat (length es)))] end
@@ -42,7 +46,7 @@ Fixpoint spec_async (c : cfg) (es : list expectation) (ms : list msg) (off : Z) 
     match es with
     | [] => EvReport RepNoExpectation :: spec_async c [] mr off
     | e :: er =>
-      map EvReport (deviation (Some e) m) ++
+      check_events e m ++ map EvReport (deviation (Some e) m) ++
       match scripted e m with
       | OSucc p => (if visible c e m then [EvSucc (m_id m) p (off + 1)] else []) ++ spec_async c er mr (off + 1)
       | OErr x => (if visible c e m then [EvErr (m_id m) x] else []) ++ spec_async c er mr off
@@ -60,7 +64,7 @@ Proof.
     + specialize (IH {| exps := []; last := lo |}).
       destruct (run_async c {| exps := []; last := lo |} mr) as [s2 o2] eqn:E. cbn [fst snd exps last] in *.
       cbn [spec_async]. rewrite <- IH. reflexivity.
-    + cbn [spec_async]. unfold deviation, scripted, visible.
+    + cbn [spec_async]. unfold deviation, scripted, visible, check_events, checked.
       destruct (m_pres m) as [p|x]; [destruct (e_chk e) as [| |x]; destruct (e_res e) as [|y] |];
       match goal with |- context [run_async c ?s mr] =>
         specialize (IH s); destruct (run_async c s mr) as [s2 o2] eqn:E end;
@@ -76,7 +80,7 @@ Qed.
 
 (* ---------- corollaries on the spec ---------- *)
 Definition is_outcome_of (id : Z) (ev : event) : bool :=
-  match ev with EvSucc i _ _ => Z.eqb i id | EvErr i _ => Z.eqb i id | EvReport _ => false end.
+  match ev with EvSucc i _ _ => Z.eqb i id | EvErr i _ => Z.eqb i id | _ => false end.
 Definition outcomes_of (id : Z) (evs : list event) : nat := length (filter (is_outcome_of id) evs).
 
 Lemma outcomes_app id a b : outcomes_of id (a ++ b) = (outcomes_of id a + outcomes_of id b)%nat.
@@ -84,6 +88,9 @@ Proof. unfold outcomes_of. rewrite filter_app, app_length. reflexivity. Qed.
 
 Lemma outcomes_reports id rs : outcomes_of id (map EvReport rs) = 0%nat.
 Proof. induction rs; cbn; auto. Qed.
+
+Lemma outcomes_checks id e m : outcomes_of id (check_events e m) = 0%nat.
+Proof. unfold check_events, checked. destruct (m_pres m); [destruct (e_chk e)|]; reflexivity. Qed.
 
 Definition all_visible (c : cfg) : Prop := ret_succ c = true /\ ret_err c = true.
 
@@ -97,7 +104,7 @@ Proof.
   intros Hv. induction ms as [|m mr IH]; intros es off Hl.
   - cbn. destruct es; reflexivity.
   - destruct es as [|e er]; [cbn in Hl; lia|]. cbn [spec_async map].
-    rewrite outcomes_app, outcomes_reports. rewrite visible_all by assumption.
+    rewrite outcomes_app, outcomes_checks, outcomes_app, outcomes_reports. rewrite visible_all by assumption.
     assert (Hl' : (length mr <= length er)%nat) by (cbn in Hl; lia).
     destruct (scripted e m) as [p|x]; cbn [app]; unfold outcomes_of in *; cbn [filter is_outcome_of];
       (destruct (Z.eq_dec (m_id m) id) as [->|Hne];
@@ -130,9 +137,12 @@ Fixpoint succ_offsets (evs : list event) : list Z :=
   end.
 
 Lemma succ_offsets_app a b : succ_offsets (a ++ b) = succ_offsets a ++ succ_offsets b.
-Proof. induction a as [|[| |] a IH]; cbn; auto. rewrite IH. reflexivity. Qed.
+Proof. induction a as [|[| | |] a IH]; cbn; auto. rewrite IH. reflexivity. Qed.
 Lemma succ_offsets_reports rs : succ_offsets (map EvReport rs) = [].
 Proof. induction rs; cbn; auto. Qed.
+
+Lemma succ_offsets_checks e m : succ_offsets (check_events e m) = [].
+Proof. unfold check_events, checked. destruct (m_pres m); [destruct (e_chk e)|]; reflexivity. Qed.
 
 Fixpoint consecutive_from (o : Z) (l : list Z) : Prop :=
   match l with [] => True | x :: r => x = o + 1 /\ consecutive_from (o + 1) r end.
@@ -144,7 +154,7 @@ Proof.
   - cbn. destruct es; cbn; auto.
   - destruct es as [|e er]; cbn [spec_async].
     + cbn. apply IH.
-    + rewrite succ_offsets_app, succ_offsets_reports. cbn [app].
+    + rewrite succ_offsets_app, succ_offsets_checks, succ_offsets_app, succ_offsets_reports. cbn [app].
       destruct (scripted e m) as [p|x] eqn:Es.
       * assert (visible c e m = true) as ->.
         { unfold scripted in Es. unfold visible. destruct (m_pres m); [|discriminate].
@@ -161,9 +171,12 @@ Proof. intro H. rewrite async_refines_spec. apply spec_offsets; assumption. Qed.
 Fixpoint reports (evs : list event) : list report :=
   match evs with [] => [] | EvReport r :: t => r :: reports t | _ :: t => reports t end.
 Lemma reports_app a b : reports (a ++ b) = reports a ++ reports b.
-Proof. induction a as [|[| |] a IH]; cbn; auto. rewrite IH; reflexivity. Qed.
+Proof. induction a as [|[| | |] a IH]; cbn; auto. rewrite IH; reflexivity. Qed.
 Lemma reports_map rs : reports (map EvReport rs) = rs.
 Proof. induction rs; cbn; congruence. Qed.
+
+Lemma reports_checks e m : reports (check_events e m) = [].
+Proof. unfold check_events, checked. destruct (m_pres m); [destruct (e_chk e)|]; reflexivity. Qed.
 
 Fixpoint spec_reports (es : list expectation) (ms : list msg) : list report :=
   match ms with
@@ -180,7 +193,7 @@ Proof.
   - destruct es; reflexivity.
   - destruct es as [|e er]; cbn [spec_async spec_reports].
     + cbn. f_equal. apply IH.
-    + rewrite reports_app, reports_map. f_equal.
+    + rewrite reports_app, reports_checks, reports_app, reports_map. cbn [app]. f_equal.
       destruct (scripted e m); destruct (visible c e m); cbn; apply IH.
 Qed.
 
@@ -203,13 +216,21 @@ Definition sync_touch_expected (s : st) (m : msg) : touch :=
                match scripted e m with OSucc _ => Some (last s + 1) | OErr _ => None end)
   end.
 
+(* the checker (if any) sees the message with the partitioner's choice already in msg.Partition *)
+Definition sync_checks_expected (s : st) (m : msg) : list (Z * Z) :=
+  match exps s, m_pres m with
+  | e :: _, POk p => match e_chk e with CNone => [] | _ => [(m_id m, p)] end
+  | _, _ => []
+  end.
+
 Theorem sync_returns_scripted s m :
   r_ret (snd (step_sync s m)) = sync_expected s m /\
   r_rep (snd (step_sync s m)) = deviation (hd_error (exps s)) m /\
   r_touch (snd (step_sync s m)) = [sync_touch_expected s m] /\
-  exps (fst (step_sync s m)) = tl (exps s).
+  exps (fst (step_sync s m)) = tl (exps s) /\
+  r_checked (snd (step_sync s m)) = sync_checks_expected s m.
 Proof.
-  unfold step_sync, sync_expected, sync_touch_expected, scripted, deviation, apply1, touch_of.
+  unfold step_sync, sync_expected, sync_touch_expected, sync_checks_expected, scripted, deviation, apply1, touch_of, checked_sync.
   destruct s as [[|e es] lo]; cbn; auto.
   destruct (m_pres m); cbn; auto. destruct (e_chk e); destruct (e_res e); cbn; auto.
 Qed.
@@ -300,7 +321,7 @@ Qed.
 (* not enough expectations: nothing is consumed, nothing is written, one report *)
 Theorem sync_batch_insufficient s ms : (length (exps s) < length ms)%nat ->
   step_batch s ms = (s, {| r_ret := SErr err_out_of_expectations; r_rep := [RepInsufficient];
-                            r_touch := map (fun _ => untouched) ms; r_asked := [] |}).
+                            r_touch := map (fun _ => untouched) ms; r_asked := []; r_checked := [] |}).
 Proof. intros Hl. unfold step_batch. apply Nat.leb_gt in Hl. rewrite Hl. reflexivity. Qed.
 
 (* --- offsets over any mix of SendMessage and SendMessages calls --- *)
@@ -412,7 +433,8 @@ Example c20_example :
   let ms := [ {| m_id := 1; m_pres := POk 3 |}; {| m_id := 2; m_pres := POk 0 |};
               {| m_id := 3; m_pres := POk 1 |}; {| m_id := 4; m_pres := PErr 5 |}; {| m_id := 5; m_pres := POk 2 |} ] in
   async_history c es ms =
-    [EvSucc 1 3 1; EvReport RepChecker; EvErr 2 7; EvErr 3 9; EvReport RepPartitioner; EvErr 4 5; EvReport RepNoExpectation].
+    [EvSucc 1 3 1; EvCheck 2 0; EvReport RepChecker; EvErr 2 7; EvCheck 3 1; EvErr 3 9; EvReport RepPartitioner; EvErr 4 5;
+     EvReport RepNoExpectation].
 Proof. vm_compute. reflexivity. Qed.
 
 Example c20_sync_example :
